@@ -1,5 +1,7 @@
 import TlsModel.Basic
+import TlsModel.SuitesBase
 import TlsModel.Gen.Suites
+import TlsModel.Gen.KexChains
 /-
   C20 — cipher-suite semantics.
 
@@ -21,20 +23,14 @@ import TlsModel.Gen.Suites
   interpretation table of class/factory names) and `specObs` (what the name says), to be compared.
 -/
 namespace Tls.Suites
-open Tls.Gen.Suites
+open Tls.Gen.Suites Tls.Gen.KexChains
 
 /-! ## basics -/
-
-abbrev Ver := Nat × Nat
 
 /-- python tuple comparison `a <= b` on 2-tuples -/
 def Ver.le (a b : Ver) : Bool := a.1 < b.1 || (a.1 == b.1 && a.2 ≤ b.2)
 def Ver.lt (a b : Ver) : Bool := a.1 < b.1 || (a.1 == b.1 && a.2 < b.2)
 
-/-- `s in <list>` (written with `Nat.beq` so that kernel evaluation is direct) -/
-def isIn (s : Nat) : List Nat → Bool
-  | [] => false
-  | x :: xs => Nat.beq x s || isIn s xs
 
 /-- `CipherSuite.ietfNames[s]` (KeyError = none) -/
 def ietfName (s : Nat) : Option String := (ietfNames.find? (fun p => p.1 == s)).map (·.2)
@@ -108,16 +104,6 @@ inductive Digest | md5 | sha1 | sha256 | sha384
 
 def Digest.str : Digest → String
   | .md5 => "md5" | .sha1 => "sha1" | .sha256 => "sha256" | .sha384 => "sha384"
-
-/-- KeyExchange classes of tlslite/keyexchange.py -/
-inductive KexClass
-  | RSAKeyExchange | DHE_RSAKeyExchange | ECDHE_RSAKeyExchange | SRPKeyExchange | ADHKeyExchange | AECDHKeyExchange
-  deriving DecidableEq, Repr
-
-def KexClass.str : KexClass → String
-  | .RSAKeyExchange => "RSAKeyExchange" | .DHE_RSAKeyExchange => "DHE_RSAKeyExchange"
-  | .ECDHE_RSAKeyExchange => "ECDHE_RSAKeyExchange" | .SRPKeyExchange => "SRPKeyExchange"
-  | .ADHKeyExchange => "ADHKeyExchange" | .AECDHKeyExchange => "AECDHKeyExchange"
 
 /-- PRF functions of tlslite/mathtls.py -/
 inductive PrfFn | PRF_SSL | PRF | PRF_1_2 | PRF_1_2_SHA384
@@ -366,19 +352,21 @@ def canonicalMacName (s : Nat) : Option MName :=
     the recorded counterexample; the live theorems use the generated list) -/
 def pinnedSha384Suites : List Nat := [0xc024, 0xc026, 0xc02a, 0xc028, 0x00a3, 0x00a5]
 
-/-- client, TLS ≤ 1.2: the KeyExchange class `_clientHandshake` instantiates (tlsconnection.py) -/
-def clientKexClass (s : Nat) : KexClass :=
-  if isIn s srpAllSuites then .SRPKeyExchange
-  else if isIn s dhAllSuites then .DHE_RSAKeyExchange
-  else if isIn s ecdhAllSuites then .ECDHE_RSAKeyExchange
-  else .RSAKeyExchange
+/-! The key-exchange if-chains of tlsconnection.py are not hand-written here: they are the GENERATED
+    trees / conditions of TlsModel/Gen/KexChains.lean (read from the AST on every run). -/
+
+/-- client, TLS ≤ 1.2: the KeyExchange class `_handshakeClientAsyncHelper` instantiates
+    (`none`: the chain could not be read, or ends in an assertion) -/
+def clientKexClass (s : Nat) : Option KexClass := (clientKexChain.eval s).bind id
 
 /-- client `_clientKeyExchange`: a Certificate message is read from the server -/
-def clientExpectsCertificate (s : Nat) : Bool :=
-  isIn s certAllSuites || isIn s ecdheEcdsaSuites || isIn s dheDsaSuites
+def clientExpectsCertificate (s : Nat) : Option Bool := clientExpectsCertificateCond.eval s
 
 /-- client `_clientKeyExchange`: a ServerKeyExchange message is read -/
-def clientExpectsSKE (s : Nat) : Bool := !isIn s certSuites
+def clientExpectsSKE (s : Nat) : Option Bool := clientExpectsSKECond.eval s
+
+/-- client `_clientKeyExchange`: the server's public key is taken from its certificate chain -/
+def clientChecksChain (s : Nat) : Option Bool := clientChecksChainCond.eval s
 
 /-- which parameter block ServerKeyExchange.parse / write handles -/
 inductive SkeKind | srp | dh | ecdh
@@ -398,21 +386,19 @@ def skeKind (s : Nat) : Except String SkeKind :=
 def skeSigned (s : Nat) : Bool :=
   isIn s certAllSuites || isIn s ecdheEcdsaSuites || isIn s dheDsaSuites
 
-/-- server, TLS ≤ 1.2: the key-exchange branch `_serverHandshake` takes; the result names the class
-    built and whether a certificate chain is sent with it -/
-def serverKexClass (s : Nat) : Except String (KexClass × Bool) :=
-  if isIn s srpAllSuites then
-    -- _serverSRPKeyExchange: Certificate + signature only for srpCertSuites
-    .ok (.SRPKeyExchange, isIn s srpCertSuites)
-  else if isIn s certSuites || isIn s dheCertSuites || isIn s dheDsaSuites
-          || isIn s ecdheCertSuites || isIn s ecdheEcdsaSuites then
-    if isIn s certSuites then .ok (.RSAKeyExchange, true)
-    else if isIn s dheCertSuites || isIn s dheDsaSuites then .ok (.DHE_RSAKeyExchange, true)
-    else if isIn s ecdheCertSuites || isIn s ecdheEcdsaSuites then .ok (.ECDHE_RSAKeyExchange, true)
-    else .error "AssertionError"
-  else if isIn s anonSuites || isIn s ecdhAnonSuites then
-    if isIn s anonSuites then .ok (.ADHKeyExchange, false) else .ok (.AECDHKeyExchange, false)
-  else .error "AssertionError"
+/-- server, TLS ≤ 1.2: the branch `_handshakeServerAsyncHelper` takes: the helper it delegates to, the
+    KeyExchange class, and whether that helper sends a Certificate message for this suite
+    (`none`: `assert False`, or something the translator could not read) -/
+def serverKexPath (s : Nat) : Option (ServerPath × KexClass × Bool) := do
+  let leaf ← serverKexChain.eval s
+  let (path, cls) ← leaf
+  let cert ← (serverPathSendsCert path).eval s
+  some (path, cls, cert)
+
+def serverKexClass (s : Nat) : Option (KexClass × Bool) := (serverKexPath s).map fun p => (p.2.1, p.2.2)
+
+/-- server: `Session.serverCertChain` is set to the server's chain -/
+def serverRecordsChain (s : Nat) : Option Bool := serverRecordsChainCond.eval s
 
 /-- CipherSuite.filter_for_certificate, with the end-entity certificate reduced to its `certAlg`
     (`none` = no certificate chain).  `includeSuites` is a Python set: it is modelled by its
@@ -765,9 +751,12 @@ def modelObs (s : Nat) (v : Ver) (r : Role) : Option Obs := do
     if tls13 then some (Kex.tls13, true, false)
     else match r with
       | .client => do
-          let k := kexOfClass (clientKexClass s)
+          let k := kexOfClass (← clientKexClass s)
+          let expCert ← clientExpectsCertificate s
+          let expSke ← clientExpectsSKE s
+          let chk ← clientChecksChain s
           -- the message really parsed must be of the kind the class consumes
-          let skeOk := if clientExpectsSKE s then
+          let skeOk := if expSke then
                          (match skeKind s, k with
                           | .ok .srp, .srp => true
                           | .ok .dh, .ffdhe => true
@@ -775,10 +764,15 @@ def modelObs (s : Nat) (v : Ver) (r : Role) : Option Obs := do
                           | _, _ => false)
                        else k == .rsa
           if !skeOk then none
-          if clientExpectsSKE s && skeSigned s != clientExpectsCertificate s then none
-          some (k, clientExpectsCertificate s, clientExpectsSKE s)
+          if expSke && skeSigned s != expCert then none
+          -- a certificate is read exactly when the key is then taken from it
+          if chk != expCert then none
+          some (k, expCert, expSke)
       | .server => do
-          let (cls, cert) ← exceptToOption (serverKexClass s)
+          let (cls, cert) ← serverKexClass s
+          -- the server's own Session records the chain exactly when it sent it
+          let recd ← serverRecordsChain s
+          if recd != cert then none
           let k := kexOfClass cls
           some (k, cert, k != .rsa)
   some { kex := kex, certified := certified, ske := ske,
@@ -873,16 +867,36 @@ def specCertKinds (sem : SuiteSem) : List CertKind :=
   | .anon, _ => [.noCert]
   | .srpOnly, _ => [.noCert]
 
+/-- the server proves possession of a certified key: it sends Certificate (and signs its parameters) -/
+def specCertified (sem : SuiteSem) : Bool :=
+  match sem.auth with
+  | .rsa | .dss | .ecdsa | .any13 => true
+  | .anon | .srpOnly => false
+
+/-- a ServerKeyExchange message belongs to the handshake (every key exchange of TLS ≤ 1.2 except RSA
+    key transport) -/
+def specSke (sem : SuiteSem) : Bool := sem.kex != .rsa && sem.kex != .tls13
+
+/-- key-exchange family the generated chain of role `r` selects for `s` (TLS ≤ 1.2) -/
+def chainKex (r : Role) (s : Nat) : Option Kex :=
+  match r with
+  | .client => (clientKexClass s).map kexOfClass
+  | .server => (serverKexClass s).map fun p => kexOfClass p.1
+
+/-- every `unknown` left by the chain translator -/
+def chainUnknowns : List String :=
+  clientKexChain.unknowns ++ serverKexChain.unknowns ++ clientExpectsCertificateCond.unknowns ++
+  clientExpectsSKECond.unknowns ++ clientChecksChainCond.unknowns ++ serverRecordsChainCond.unknowns ++
+  (serverPathSendsCert .srp).unknowns ++ (serverPathSendsCert .cert).unknowns ++
+  (serverPathSendsCert .anon).unknowns ++ Tls.Gen.KexChains.translatorProblems
+
 def specObs (sem : SuiteSem) (v : Ver) : Option Obs := do
   let cname ← specCipherName sem
   let conn ← specConnCipherName sem
   -- static (EC)DH key agreement is not something this library implements: no expectation
   if sem.kex == .dhStatic || sem.kex == .ecdhStatic then none
-  let certified := match sem.auth with
-                   | .rsa | .dss | .ecdsa | .any13 => true
-                   | .anon | .srpOnly => false
-  some { kex := sem.kex, certified := certified,
-         ske := sem.kex != .rsa && sem.kex != .tls13,
+  some { kex := sem.kex, certified := specCertified sem,
+         ske := specSke sem,
          certKinds := specCertKinds sem,
          cipher := sem.cipher, keyLen := sem.keyLen, mode := sem.mode, ivLen := specIvLen sem v,
          mac := sem.mac, macLen := (sem.mac.map hashLen).getD 0, tagLen := sem.tagLen,
